@@ -1,7 +1,73 @@
 import A2Verif.Model.Hex
-/-! driver family `c17` (stub until the family is built) -/
-namespace A2Verif.Drv.C17
+import A2Verif.Model.Minify
+import A2Verif.Model.MinifyVars
+/-!
+driver family `c17`
 
-def handle (_toks : List String) : String := "bad-request"
+* `c17 min <cfg> <level> <line>*` — run the program-level minifier model.  `<cfg>` is four bits
+  `remapRefs keepLast dataForbids remTopOnly`; each `<line>` is
+  `num:rem:remNested:toks:data:len:endsStr:refs:lits` (booleans `0/1`, lists `a,b,…` or `-`;
+  `toks` = codes of the token nodes pass 1 visits; `fnext`/`fany` are computed from the generated
+  `FORBIDS_COMBINING_*` tables).
+  Answer: `err` or `ok` followed by one `num:len:refs:lits` per output line.
+* `c17 short <kind> <hex name> <needsGuard>` — the variable shortening rule; kind `r|s|i`
+  (real / string / integer name node), name = node text without blanks; answer hex.
+* `c17 guard <hex prefix> <follower kind>` — lookup in the generated guard table; answer `0/1`.
+-/
+namespace A2Verif.Drv.C17
+open A2Verif.Model.Minify A2Verif.Hex A2Verif.Gen.MinifyGuards
+
+def parseBool (s : String) : Option Bool :=
+  if s == "1" then some true else if s == "0" then some false else none
+
+def parseLine (s : String) : Option Line :=
+  match s.splitOn ":" with
+  | [num, rem, remN, toks, data, len, ends, refs, lits] => do
+    let num ← num.toNat?
+    let rem ← parseBool rem
+    let remN ← parseBool remN
+    let toks ← parseNatList toks
+    let fnext := toks.any fun c => forbidsCombiningNext.any (·.code == c)
+    let fany := toks.any fun c => forbidsCombiningAny.any (·.code == c)
+    let data ← parseBool data
+    let len ← len.toNat?
+    let ends ← parseBool ends
+    let refs ← parseNatList refs
+    let lits ← parseNatList lits
+    some ⟨num, rem, remN, refs, fnext, data, fany, lits, len, ends⟩
+  | _ => none
+
+def parseCfg (s : String) : Option Cfg :=
+  match s.toList with
+  | [a, b, c, d] => do
+    let a ← parseBool (String.singleton a)
+    let b ← parseBool (String.singleton b)
+    let c ← parseBool (String.singleton c)
+    let d ← parseBool (String.singleton d)
+    some ⟨a, b, c, d⟩
+  | _ => none
+
+def showGroup (g : Group) : String :=
+  s!"{g.num}:{g.len}:{natList g.refs}:{natList g.lits}"
+
+def handle (toks : List String) : String :=
+  match toks with
+  | "min" :: cfg :: level :: lines =>
+    match parseCfg cfg, level.toNat?, lines.mapM parseLine with
+    | some cfg, some level, some p =>
+      if level == 0 || level > 3 then "bad-request" else
+      match minify cfg level p with
+      | .err => "err"
+      | .ok out => " ".intercalate ("ok" :: out.map showGroup)
+    | _, _, _ => "bad-request"
+  | ["short", kind, name, guard] =>
+    match A2Verif.Model.MinifyVars.parseKind kind, ofHex name, parseBool guard with
+    | some k, some nm, some g => toHex (A2Verif.Model.MinifyVars.shortText k g nm)
+    | _, _, _ => "bad-request"
+  | ["guard", pre, foll] =>
+    match ofHex pre, A2Verif.Model.MinifyVars.parseFollower foll with
+    | some p, some f => if A2Verif.Model.MinifyVars.needsGuard p f then "1" else "0"
+    | _, _ => "bad-request"
+  | _ => "bad-request"
 
 end A2Verif.Drv.C17
